@@ -242,6 +242,12 @@ def run(ctx: Ctx) -> None:
         # five items on 4x4: the smallest bin on which an item can slide
         # under an exactly fitting overhang and fall again afterwards
         sp = sp + [(4, 4, 5, 5)]
+    # six items on 3x3: the smallest case in which an item type that did
+    # not fit into a bin fits into it LATER (a lid covers the pit in which
+    # the first copy got stuck): "bins only get fuller" memos break here
+    sp = sp + [(3, 3, 6, 6)]
+    if not ctx.quick:
+        sp = sp + [(4, 3, 6, 6), (3, 4, 6, 6)]
     r = C.explore_trees(ctx, sp)
     ctx.add("states", r["nodes"])
     ctx.add("transitions", r["nodes"])
